@@ -7,7 +7,9 @@ use crate::big::{I512, U512};
 use crate::pairs;
 use crate::runner::*;
 use crate::spec::*;
-use fpdec::RoundingMode;
+use crate::c05::failure_kind;
+use crate::model::{self, DivPath};
+use fpdec::{CheckedDiv, DivRounded, MulRounded, RoundingMode};
 use fpdec_core::{i128_mul_div_ten_pow_rounded, i128_shifted_div_mod_floor, i128_shifted_div_rounded, i256_div_mod_floor, verif_cov};
 use serde_json::{json, Value};
 
@@ -125,10 +127,62 @@ fn rounded_case(f: u64, a: i128, b: i128, k: u8, m: i128, mode: RoundingMode, vi
 
 // extended class name incl. mode / rem class for the rounded kernels
 fn class_name_ext(c: u64) -> String {
+    if c >> 20 != 0 {
+        return format!("operator level {}/{}/{}/{}/{}", if c >> 20 == 1 { "* and mul_rounded" } else { "/, checked_div, div_rounded" }, mode_name(ALL_MODES[((c >> 12) & 7) as usize]), ["exact", "below-half", "tie", "above-half"][((c >> 16) & 3) as usize], if (c >> 8) & 1 == 1 { "negative" } else { "nonneg" }, if c & 1 == 1 { "overflow" } else { "value" });
+    }
     let base = class_name(c & 0xfff);
     if (c >> 9) & 3 >= 2 {
         format!("{}/{}/{}", base, mode_name(ALL_MODES[((c >> 12) & 7) as usize]), ["exact", "below-half", "tie", "above-half"][((c >> 16) & 3) as usize])
     } else { base }
+}
+
+/// Operator level: x * y, mul_rounded on operands whose coefficient product exceeds 128 bits.
+fn op_mul_case(a: i128, p: u8, b: i128, q: u8, mode: RoundingMode, l: &mut Local) {
+    let (x, y) = (dec(a, p), dec(b, q));
+    let mk = || json!({"k": "opmul", "a": a.to_string(), "p": p, "b": b.to_string(), "q": q, "mode": mode_name(mode)});
+    let (exp, _path, info) = model::mul(a, p, b, q, mode);
+    let wide = info.as_ref().map(|i| i.wide).unwrap_or(false);
+    if !wide { return; }
+    let i = info.unwrap();
+    l.distinct += 1;
+    let c = (1u64 << 20) | ((mode_idx(mode) as u64) << 12) | ((i.rem_class as u64) << 16) | ((i.negative as u64) << 8) | (matches!(exp, Expect::Fail) as u64);
+    if l.class(c) { l.sample(c, json!({"op": "Decimal*Decimal (product beyond i128)", "x": [a.to_string(), p], "y": [b.to_string(), q], "mode": mode_name(mode), "model": show_expect(&exp)})); }
+    let mut chk = |name: &str, e: &Expect, got: Out| {
+        l.evals += 1;
+        if !accepts(e, &got, &Out::Panic) {
+            l.violation(format!("{} | product beyond i128{} | {}", name, if i.rem_class == RemClass::Exact { ", exact" } else { "" }, failure_kind(e, &got, &Out::Panic)), || (format!("{} model={} impl={} case={}", name, show_expect(e), got.show(), mk()), mk()));
+        }
+    };
+    chk("Decimal*Decimal", &exp, out_op(|| x * y));
+    for n in [0u8, 18, (p + q).saturating_sub(1).min(18)] {
+        let (e2, inf2) = model::mul_rounded(a, p, b, q, n, mode);
+        if inf2.as_ref().map(|i| i.wide).unwrap_or(false) { chk("Decimal.mul_rounded(Decimal)", &e2, out_op(|| x.mul_rounded(y, n))); }
+    }
+}
+
+/// Operator level: x / y, checked_div, div_rounded on operands whose scaled dividend exceeds 128 bits.
+fn op_div_case(a: i128, p: u8, b: i128, q: u8, mode: RoundingMode, l: &mut Local) {
+    let (x, y) = (dec(a, p), dec(b, q));
+    let mk = || json!({"k": "opdiv", "a": a.to_string(), "p": p, "b": b.to_string(), "q": q, "mode": mode_name(mode)});
+    let (exp, info) = model::div(a, p, b, q, mode);
+    let (path, i) = match info { Some(pi) => pi, None => return };
+    if path != DivPath::WideShift { return; }
+    l.distinct += 1;
+    let c = (2u64 << 20) | ((mode_idx(mode) as u64) << 12) | ((i.rem_class as u64) << 16) | ((i.negative as u64) << 8) | (matches!(exp, Expect::Fail) as u64);
+    if l.class(c) { l.sample(c, json!({"op": "Decimal/Decimal (scaled dividend beyond i128)", "x": [a.to_string(), p], "y": [b.to_string(), q], "mode": mode_name(mode), "model": show_expect(&exp)})); }
+    let exact = if i.rem_class == RemClass::Exact { ", exact" } else { "" };
+    let mut chk = |name: &str, e: &Expect, got: Out, fail: Out| {
+        l.evals += 1;
+        if !accepts(e, &got, &fail) {
+            l.violation(format!("{} | scaled dividend beyond i128{} | {}", name, exact, failure_kind(e, &got, &fail)), || (format!("{} model={} impl={} case={}", name, show_expect(e), got.show(), mk()), mk()));
+        }
+    };
+    chk("Decimal/Decimal", &exp, out_op(|| x / y), Out::Panic);
+    chk("Decimal.checked_div(Decimal)", &exp, out_checked(|| x.checked_div(y)), Out::None);
+    for n in [0u8, 9, 18] {
+        let (e2, inf2) = model::div_rounded(a, p, b, q, n, mode);
+        if matches!(inf2, Some((DivPath::WideShift, _))) { chk("Decimal.div_rounded(Decimal)", &e2, out_op(|| x.div_rounded(y, n)), Out::Panic); }
+    }
 }
 
 pub fn replay(w: &Value) -> Vec<(String, String)> {
@@ -137,6 +191,12 @@ pub fn replay(w: &Value) -> Vec<(String, String)> {
     let prev = RoundingMode::default();
     run.seq(|l| match w["k"].as_str().unwrap_or("") {
         "floor" => floor_case(w["f"].as_u64().unwrap(), g("a"), g("b"), w["kk"].as_u64().unwrap() as u8, g("m"), l),
+        "opmul" | "opdiv" => {
+            let mode = mode_from_name(w["mode"].as_str().unwrap()).unwrap();
+            RoundingMode::set_default(mode);
+            let (a, p, b, q) = (g("a"), w["p"].as_u64().unwrap() as u8, g("b"), w["q"].as_u64().unwrap() as u8);
+            if w["k"] == "opmul" { op_mul_case(a, p, b, q, mode, l) } else { op_div_case(a, p, b, q, mode, l) }
+        }
         "rounded" => {
             let mode = mode_from_name(w["mode"].as_str().unwrap()).unwrap();
             RoundingMode::set_default(mode);
@@ -267,6 +327,26 @@ pub fn run(tier: Tier) -> i32 {
     }
     run.stage("rounded kernels", json!({"modes":8,"k":"1..=38"}));
 
+    // (4) operator level: * / mul_rounded div_rounded checked_div on operands that force the 256-bit paths
+    let mults: Vec<i128> = vec![3, 7, 11, 101, (1 << 61) - 1, (1 << 64) + 13, 123456789012345678901234567, (1i128 << 100) + 277, (1i128 << 120) + 451, 2, 5, 1 << 40, 5i128.pow(20), alpha::pow10(18), 1 << 126, M / 3, M];
+    let opdivs: Vec<i128> = { let mut v = vec![2i128, 3, 7, 10, 1 << 32, (1 << 64) - 1, 1 << 64, (1 << 64) + 1, (1i128 << 96) + 1, 1 << 126, M / 3, M - 1, M, 999_999_999_999_999_999, alpha::pow10(19), 3 * alpha::pow10(20)];
+        let shape: u128 = (1u128 << 127) | ((1u128 << 64) - 1); for sh in [1u32, 2, 17, 33, 62, 63] { v.push((shape >> sh) as i128); } v };
+    let frame = alpha::scale_frame();
+    let mut opitems: Vec<(u8, i128, u8, u8)> = Vec::new();
+    for &b in &mults { for sb in [1i128, -1] { for &(p, q) in &frame { if p as u32 + q as u32 > 18 { opitems.push((0, sb * b, p, q)); } } } }
+    for &b in &opdivs { for sb in [1i128, -1] { for &(p, q) in &frame { if 18 + q as i32 - p as i32 > 0 { opitems.push((1, sb * b, p, q)); } } } }
+    for mode in ALL_MODES {
+        run.par_for(&opitems, || RoundingMode::set_default(mode), |&(kind, b, p, q), l| {
+            let mut xs = Vec::new();
+            if kind == 0 { pairs::frontier_mul_round(b, p as u32 + q as u32 - 18, &qs[..qs.len().min(if deep { 200 } else { 60 })], &mut xs); }
+            else { pairs::frontier_div_round(b, (18 + q - p) as u32, 0, &qs[..qs.len().min(if deep { 200 } else { 60 })], &mut xs); }
+            xs.retain(|x| *x != i128::MIN && *x != 0);
+            xs.sort(); xs.dedup();
+            for a in xs { if kind == 0 { op_mul_case(a, p, b, q, mode, l); } else { op_div_case(a, p, b, q, mode, l); } }
+        });
+    }
+    run.stage("operator level on 256-bit paths", json!({"multipliers": mults.len(), "divisors": opdivs.len(), "scale_pairs": "frame", "modes": 8, "operations": "*, mul_rounded, /, checked_div, div_rounded"}));
+
     // hook counters: which branches of the multi-word division were reached
     let names = ["idiv_u128: divisor<2^64 (u256_idiv_u64)", "idiv_u128: high word<divisor (special directly)", "idiv_u128: high word>=divisor (two-step)", "idiv_u64: y==1 exit",
         "special: n_bits==0 (divisor>=2^127, unreachable for positive i128)", "special: first digit estimate corrected once", "special: first digit estimate corrected twice", "special: first loop left by rhat>=B",
@@ -299,10 +379,13 @@ pub fn run(tier: Tier) -> i32 {
         required.push(g);
     }}}}
 
+    for opk in [1u64, 2] { for m in 0..8u64 { for rc in 0..4u64 { for neg in [0u64, 1] {
+        required.push(vec![(opk << 20) | (m << 12) | (rc << 16) | (neg << 8), (opk << 20) | (m << 12) | (rc << 16) | (neg << 8) | 1]);
+    }}}}
     let rc = finish(Finish {
         run: &run,
         level: "model_checking",
-        rule: "Complete enumeration of constructed (a, b|k, m): for every divisor m of the divisor alphabet (1, 2, 3, 10^k, 10^k+-1, 2^64-1, 2^64, 2^64+1, limb patterns, the normalised-minimal-top-limb/maximal-low-limb shape and its right shifts, 2^127-1), every quotient target Q (limb patterns q1,q0 in {0,1,2^63,2^64-2,2^64-1}, 2^127-1-d, 2^127+d, 2^128-1, 2^128), every remainder target R in {0,1,m/2,m-1}, every factor shape a: b = floor((Q*m+R)/a)+{0,1}, four sign combinations; for the shifted form all k in 0..=38; exact divisions by construction; rounded kernels over the C02-C04 frontier constructions under 8 modes. Every tuple counted is distinct within its stage and non-trivial (a real division).".into(),
+        rule: "Complete enumeration of constructed (a, b|k, m): for every divisor m of the divisor alphabet (1, 2, 3, 10^k, 10^k+-1, 2^64-1, 2^64, 2^64+1, limb patterns, the normalised-minimal-top-limb/maximal-low-limb shape and its right shifts, 2^127-1), every quotient target Q (limb patterns q1,q0 in {0,1,2^63,2^64-2,2^64-1}, 2^127-1-d, 2^127+d, 2^128-1, 2^128), every remainder target R in {0,1,m/2,m-1}, every factor shape a: b = floor((Q*m+R)/a)+{0,1}, four sign combinations; for the shifted form all k in 0..=38; exact divisions by construction; rounded kernels over the C02-C04 frontier constructions under 8 modes; operator level: *, mul_rounded, /, checked_div, div_rounded on every operand tuple of the rounding frontier (17 multipliers / 22 divisors x both signs x scale frame x quotient alphabet x residues 0,1,half-1,half,half+1,max) whose product resp. scaled dividend exceeds 128 bits, under 8 thread-default modes, against the single-rounding model. Every tuple counted is distinct within its stage and non-trivial (a real division).".into(),
         exhaustive: true,
         assumptions: vec![
             "oracle: certificate a*b = q*m + r and 0 <= r < m checked by 512-bit multiplication; None iff the floor quotient is outside i128 (-2^127 itself: either)".into(),
